@@ -285,7 +285,7 @@ class ElectrumV1:
             bytes: Sequence bytes
         """
         return DoubleSha256.QuickDigest(
-            AlgoUtils.Encode(f"{addr_idx}:{change_idx}:") + self.MasterPublicKey().RawUncompressed().ToBytes()[1:]
+            AlgoUtils.Encode(f"{int(addr_idx)}:{int(change_idx)}:") + self.MasterPublicKey().RawUncompressed().ToBytes()[1:]
         )
 
     @staticmethod
